@@ -223,6 +223,91 @@ def check(idx, run):
                   "list to the pre-region and the output list to the "
                   "post-region data", loc(ecls.module, func))
     run.floor("ExtractNode code-generation sites", nsites, 1)
+    # who hands a pre-computed list to the node (it then never recomputes:
+    # the list is stale as soon as the region is transformed again)
+    PRECOMPUTED_REVIEWED = {
+        "LFRicExtractTrans": "needs the non-local symbols of the call tree, "
+                             "which the node cannot compute itself",
+    }
+    npre = 0
+    for pcls in idx.all_subclasses(idx.get_class("ExtractTrans"),
+                                   include_self=True):
+        for fname, func in pcls.methods.items():
+            for st in ast.walk(func):
+                if isinstance(st, ast.Assign) and isinstance(
+                        st.targets[0], ast.Subscript) and \
+                        "'read_write_info'" in ast.unparse(st.targets[0]):
+                    npre += 1
+                    run.check(
+                        "C12.R2", pcls.name in PRECOMPUTED_REVIEWED,
+                        f"{pcls.name}.{fname}",
+                        "input / output lists are computed when the code is "
+                        "written",
+                        f"{pcls.name}.{fname} stores a read/write list "
+                        f"computed at apply time in the options of the "
+                        f"extraction node; the node then never recomputes "
+                        f"it, so a transformation applied to the region "
+                        f"afterwards (new loop bounds, fused kernels) "
+                        f"changes what is read without changing what is "
+                        f"recorded", loc(pcls.module, st))
+    run.extra["precomputed_lists"] = npre
+    # the work list that follows calls into other modules: an entry may only
+    # be skipped when an identical one (including its access information)
+    # was handled before
+    rfunc = cls.methods.get("_resolve_calls_and_unknowns")
+    if rfunc is not None:
+        loops = [w for w in ast.walk(rfunc) if isinstance(w, ast.While)]
+        for loop in loops:
+            pops = [a for a in loop.body if isinstance(a, ast.Assign) and
+                    ".pop(" in ast.unparse(a.value)]
+            unpack = [a for a in loop.body if isinstance(a, ast.Assign) and
+                      isinstance(a.targets[0], ast.Tuple) and pops and
+                      ast.unparse(a.value) == ast.unparse(pops[0].targets[0])]
+            skips = [st for st in loop.body if isinstance(st, ast.If) and
+                     isinstance(st.test, ast.Compare) and
+                     isinstance(st.test.ops[0], ast.In) and
+                     any(isinstance(b, ast.Continue) for b in st.body)
+                     and isinstance(st.test.comparators[0], ast.Name)]
+            if not (pops and unpack and skips):
+                continue
+            item = ast.unparse(pops[0].targets[0])
+            comps = [ast.unparse(e) for e in unpack[0].targets[0].elts]
+            for st in skips:
+                setname = st.test.comparators[0].id
+                adds = [c for c in ast.walk(loop) if isinstance(c, ast.Call)
+                        and ast.unparse(c.func) == f"{setname}.add"]
+                if not adds:
+                    continue
+                keytxt = ast.unparse(st.test.left)
+                key_names = {n.id for n in ast.walk(st.test.left)
+                             if isinstance(n, ast.Name)}
+                # expand a key built in a local variable
+                for a in loop.body:
+                    if isinstance(a, ast.Assign) and ast.unparse(
+                            a.targets[0]) == keytxt:
+                        key_names |= {n.id for n in ast.walk(a.value)
+                                      if isinstance(n, ast.Name)}
+                dropped = []
+                if item not in key_names:
+                    for comp in comps:
+                        if comp in key_names:
+                            continue
+                        used = any(isinstance(n, ast.Name) and n.id == comp
+                                   and isinstance(n.ctx, ast.Load)
+                                   for b in loop.body for n in ast.walk(b)
+                                   if b is not unpack[0])
+                        if used:
+                            dropped.append(comp)
+                run.check(
+                    "C12.R2", not dropped,
+                    "CallTreeUtils._resolve_calls_and_unknowns",
+                    "work-list entries are only skipped when identical",
+                    f"an outstanding non-local symbol is skipped when "
+                    f"'{keytxt}' was seen before, although {dropped} of the "
+                    f"entry still decide(s) what is recorded: a module "
+                    f"variable written in one routine and read in another "
+                    f"is recorded from the first routine processed only",
+                    loc(mod, st))
     # R3 what the write-first test consults
     ffunc = scls.methods.get("is_written_first")
     if ffunc is None:
